@@ -10,10 +10,10 @@ CONSTANTS
   Encs = {"json", "msgpack"}
   Auths = {"ok", "fail"}
   WithReload = TRUE
-  Faithful = TRUE
+  Faithful = FALSE
   UpperHexIsClassic = FALSE
-INVARIANTS TypeOK EnvKeyUsesEnvironment ClassicKeyUsesDataset DocumentedShapes NeverWithoutSampler PrefixSeparates ExtractedIsWhatDeciderReads DecisionOfOneTarget
-PROPERTY DecisionFollowsRulesExceptKnown
+INVARIANTS TypeOK EnvKeyUsesEnvironment ClassicKeyUsesDataset DocumentedShapes NeverWithoutSampler PrefixSeparates ExtractedIsWhatDeciderReads DecisionOfOneTarget NoUnknownEnvironmentIngested
+PROPERTY DecisionFollowsRules
 ACTION_CONSTRAINT Dump
 VIEW View
 CHECK_DEADLOCK FALSE
